@@ -1,5 +1,7 @@
 (* C14 -- Lifecycle: hooks installed once, restored exactly; shutdown always completes. *)
 From Deep Require Import Base Lifecycle LifecycleProofs ExnFlow.
+From DeepGen Require Import PHooks.
+From Deep Require Import PureSupport TieHooks.
 From DeepGen Require Import Skeleton.
 
 (* repeat starts do nothing *)
@@ -73,3 +75,26 @@ Proof.
   eapply each_attempts_all; [|exact A2|exact X]. destruct (esc (only_exc b)); [reflexivity|discriminate].
 Qed.
 Print Assumptions C14_every_step_and_plugin_attempted.
+
+(* ---- tie by translation: TriggerHandler.start / shutdown as they are in /repo/src NOW (gen/PHooks.v is regenerated on every
+   run) are the handler part of the model's start / shutdown *)
+Theorem C14_the_code_hooks_are_the_model :
+  forall guarded c f l,
+  (started l = false -> hooks_installed l = false ->
+   gen_handler_start (no_trace c) (inert l) (hooks_installed l) (saved_sys l) (saved_thr l) (sys_hook l) (thr_hook l) =
+   handler_state (do_start c l)) /\
+  (started l = true ->
+   gen_handler_shutdown (inert l) (hooks_installed l) (saved_sys l) (saved_thr l) (sys_hook l) (thr_hook l) =
+   handler_state (do_shutdown guarded c f l)).
+Proof. intros. split; [apply tie_handler_start | apply tie_handler_shutdown]. Qed.
+Print Assumptions C14_the_code_hooks_are_the_model.
+
+(* stated over the translated code: start followed by shutdown puts back exactly the two hooks that were there, whatever they
+   were; with tracing disabled start touches neither; after shutdown the handler is inert *)
+Theorem C14_the_code_restores_the_hooks :
+  forall no_trace i0 s0 t0 ss st,
+  let '(i1, h1, ss1, st1, s1, t1) := gen_handler_start no_trace i0 false ss st s0 t0 in
+  let '(i2, h2, _, _, s2, t2) := gen_handler_shutdown i1 h1 ss1 st1 s1 t1 in
+  s2 = s0 /\ t2 = t0 /\ i2 = true /\ h2 = false /\ (no_trace = true -> s1 = s0 /\ t1 = t0).
+Proof. exact code_hooks_restored. Qed.
+Print Assumptions C14_the_code_restores_the_hooks.
